@@ -68,6 +68,18 @@ CLAIMED = {
             "every structure of the listed families is classified on a fresh Classifier and each clause (class vs dimensionality, region partition/coverage, prototype cell, input snapshot, repeated call) is evaluated; every sequence A,B,(C,)A over 6 representative systems on one instance is compared with fresh instances",
             "dimensionality reference is the library's own get_dimensionality (checked by C09) plus the bonding-graph model for <=6 atoms; bounded families",
             "DESIGN.md §4 C17"),
+    "C03": ("complete enumeration of a stack catalogue x orderings x noise x scripted seed choices on the real SBC",
+            "every ordered pair of catalogue fcc/bcc metals within 5 % mismatch that passes the independent precondition is stacked (layer counts, lateral size, TTF / TTT+vacuum / superlattice) and clustered under every listed ordering, noise field and seed-choice script; the two clusters must be exactly the two slabs with dimensionality 2",
+            "the statement is a recognition claim about a heuristic: the coverage is exactly the enumerated catalogue (covalent radii, margins 0.1 A, one 0.03 A noise field per VERIF_SEED row)",
+            "DESIGN.md §4 C03"),
+    "C04": ("complete enumeration of the C02 catalogue + monolayers x presentations x scripted seed choices; analyser comparison source cell vs prototype cell",
+            "for every explored run in which SBC returns the single complete cluster, the prototype cell is pushed through the documented SymmetryAnalyzer workflow and compared field by field with the source unit cell analysed at the same tolerance",
+            "runs not returning one complete cluster are filtered (that is C02); recognition claim, coverage = the enumerated catalogue",
+            "DESIGN.md §4 C04"),
+    "C11": ("exhaustive root enumeration over layer-compatible symmorphic groups + presentation BFS on the real SymmetryAnalyzer (2D branch)",
+            "every root layer is analysed under three min_2d_thickness values and under every generator (vacuum, all axis relabellings, in-plane supercells, rotation, flip, translation, permutation); structural clauses are evaluated in every state and the normal-form fields are compared with the root",
+            "bounded family (1-3 orbits, listed generators, tol 0.01); the set of layer-compatible groups is derived by the harness from the Hall database",
+            "DESIGN.md §4 C11"),
 }
 NA_REASON = "check not built yet in this round; see DESIGN.md §7 order of work"
 
